@@ -499,3 +499,16 @@ M('c06-wsgi-path-default-statement-other-constant', 'C06', 'R13', 'falcon/reques
 # ... and applied under the wrong polarity (a non-empty path is replaced)
 M('c06-wsgi-path-default-statement-wrong-polarity', 'C06', 'R13', 'falcon/request.py',
   "        path: str = env['PATH_INFO'] or '/'\n", "        path: str = env['PATH_INFO']\n        if path:\n            path = '/'\n")
+# the latin-1 re-decoding of the tunnelled path extracted into a module-level helper (silent on its own) -- with a codec that is
+# not total: a path byte >= 0x80 raises UnicodeEncodeError out of the WSGI constructor only
+M2('c06-wsgi-decode-path-helper-ascii-codec', 'C06', 'R2', [
+    {'file': 'falcon/request.py', 'old': "            path = path.encode('iso-8859-1').decode('utf-8', 'replace')\n",
+     'new': "            path = helpers._decode_path(path)\n"},
+    {'file': 'falcon/request_helpers.py', 'old': "def _header_property(wsgi_name: str) -> Any:",
+     'new': "def _decode_path(path: str) -> str:\n    return path.encode('ascii').decode('utf-8', 'replace')\n\n\ndef _header_property(wsgi_name: str) -> Any:"}], also=('C04', 'C16'))
+# ... or the helper is also handed a client-controlled header value by another caller
+M2('c06-wsgi-decode-path-helper-also-fed-a-header', 'C06', 'R2', [
+    {'file': 'falcon/request.py', 'old': "            path = path.encode('iso-8859-1').decode('utf-8', 'replace')\n",
+     'new': "            path = helpers._decode_path(path)\n        self._ua = helpers._decode_path(env.get('HTTP_USER_AGENT', ''))\n"},
+    {'file': 'falcon/request_helpers.py', 'old': "def _header_property(wsgi_name: str) -> Any:",
+     'new': "def _decode_path(path: str) -> str:\n    return path.encode('iso-8859-1').decode('utf-8', 'replace')\n\n\ndef _header_property(wsgi_name: str) -> Any:"}], also=('C04', 'C16', 'C19'))
